@@ -207,6 +207,17 @@ def run(ctx: Ctx) -> int:
             )
     ctx.floor("C10.c-meta-pops", n_pairs, 2)
 
+    # load_value keeps the ORIGINAL TEXT whenever the loader made a scalar of it (the type decides later what the text
+    # means): the class tuple of that test names every scalar class a yaml / json loader can return
+    lvf = ctx.func("_loaders_dumpers:load_value")
+    keep = [c for c in calls_in(lvf) if call_leaf(c) == "isinstance" and len(c.args) == 2 and isinstance(c.args[1], ast.Tuple) and any(isinstance(e, ast.Name) and e.id == "str" for e in c.args[1].elts)]
+    ctx.need(keep, "load_value: isinstance(<loaded>, (int, float, bool, str))")
+    for c in keep:
+        have_ = {e.id for e in c.args[1].elts if isinstance(e, ast.Name)}
+        missing_ = {"int", "float", "bool", "str"} - have_
+        ok = not missing_
+        ctx.oblige("C10.a", ok, c, "text that loads as int, float, bool or str is handed to the type as the text that was written" if ok else f"load_value no longer keeps the text of values that load as {sorted(missing_)}: '--n=4.0' reaches an int type as the float 4.0 (accepted although int('4.0') fails), a Decimal given on the command line goes through a binary float (--d=0.1000000000000000055511151231257827 -> Decimal('0.1')) - the command line and a config file disagree", fn=lvf, construct="scalar classes kept as text")
+
     # ---------------- C10.d the name written for an object denotes that object ---------------------------------------
     # an importable module-level INSTANCE is dumped as the dotted name of the module variable that holds it; parsing
     # that name gives back the variable's value - the same object only if the variable was chosen by identity
